@@ -177,10 +177,7 @@ func (p *parser) parseMessageText() (dataItem ast.ItemNode, ok bool) {
 		return ast.NewListNode(values...), true
 
 	case formatCodeASCII:
-		var str string
-		for _, v := range p.input[p.pos : p.pos+length] {
-			str += string(v)
-		}
+		str := string(p.input[p.pos : p.pos+length])
 		p.pos += length
 		return ast.NewASCIINode(str), true
 
